@@ -10,7 +10,19 @@ import (
 // Data graph types used as Execute data and variables. Instances are built
 // per run from the tape and never mutated after construction.
 
+// extra is an unexported embedded struct type: its exported field is promoted,
+// but jet's per-type field index does not list it (slow reflect path).
+type extra struct {
+	ExtraNote string
+}
+
+// Meta is embedded by pointer: promoted through a pointer, also the slow path.
+type Meta struct {
+	MetaName string
+}
+
 type Item struct {
+	extra
 	Name   string
 	N      int
 	Tags   []string
@@ -31,6 +43,7 @@ func (b Base) Hello() string { return "hello " + b.BaseName }
 
 type Root struct {
 	Base
+	*Meta
 	Title   string
 	Count   int
 	Items   []Item
@@ -80,10 +93,10 @@ func GenData(t *sim.Tape, tag int) DataSpec {
 }
 
 func (d DataSpec) BuildRoot() *Root {
-	r := &Root{Base: Base{BaseName: fmt.Sprintf("bn%d", d.Tag), Shared: 7}, Title: d.Title, Count: d.Count, Flag: d.Flag,
+	r := &Root{Base: Base{BaseName: fmt.Sprintf("bn%d", d.Tag), Shared: 7}, Meta: &Meta{MetaName: fmt.Sprintf("mn%d", d.Tag)}, Title: d.Title, Count: d.Count, Flag: d.Flag,
 		One: map[string]int{"k": d.Tag}, Arr: [2]int{4, 2}, Any: "any", NoNames: []string{}}
 	for i := 0; i < d.NItems; i++ {
-		it := Item{Name: fmt.Sprintf("it%d.%d", d.Tag, i), N: i + 1, Tags: []string{fmt.Sprintf("tg%d", i)}, M: map[string]string{"mk": fmt.Sprintf("mv%d", i)}, secret: "PRIVATE"}
+		it := Item{Name: fmt.Sprintf("it%d.%d", d.Tag, i), N: i + 1, Tags: []string{fmt.Sprintf("tg%d", i)}, M: map[string]string{"mk": fmt.Sprintf("mv%d", i)}, secret: "PRIVATE", extra: extra{ExtraNote: fmt.Sprintf("xn%d", i)}}
 		if i == 0 {
 			it.Sub = &Item{Name: "sub", N: 9}
 		}
@@ -93,7 +106,7 @@ func (d DataSpec) BuildRoot() *Root {
 		r.Names = append(r.Names, fmt.Sprintf("nm%d.%d", d.Tag, i))
 	}
 	if d.Nested {
-		r.Nested = &Root{Title: "nested", Items: []Item{{Name: "ni", N: 5}}, Names: []string{"nn"}, One: map[string]int{"k": 1}}
+		r.Nested = &Root{Meta: &Meta{MetaName: "nmeta"}, Title: "nested", Items: []Item{{Name: "ni", N: 5}}, Names: []string{"nn"}, One: map[string]int{"k": 1}}
 	}
 	return r
 }
